@@ -874,3 +874,390 @@ Proof.
   exists e. split; [exact He|]. rewrite spec_reader_agrees; [exact Hd|].
   unfold col_dom_num in Hdom. lia.
 Qed.
+
+(* ========================================================================== *)
+(* 10. the uncompressed form of the same column; transparency                    *)
+(* ========================================================================== *)
+
+Theorem fields_roundtrip_num w raws : forall o t,
+  (2 <= w <= 64)%Z -> forallb (in_range w) raws = true ->
+  exists e, enc_fields_num w raws o = Ok (o ++ e) /\
+            dec_fields_num w (length raws) (e ++ t) = Ok (raw_view raws, t).
+Proof.
+  induction raws as [|v raws IH]; intros o t Hw Hr.
+  - exists []. cbn. rewrite app_nil_r. auto.
+  - cbn [forallb] in Hr. apply andb_true_iff in Hr as [Hv Hr].
+    assert (Hp := pow2_pos_Z w ltac:(lia)).
+    set (m := match v with None => (2 ^ w - 1)%Z | Some x => x end).
+    assert (Hm : (0 <= m < 2 ^ w)%Z) by (unfold m; destruct v; cbn in Hv; lia).
+    destruct (IH (o ++ to_bits (Z.to_nat w) (Z.to_N m)) t Hw Hr) as (e & He & Hd).
+    exists (to_bits (Z.to_nat w) (Z.to_N m) ++ e).
+    cbn [enc_fields_num dec_fields_num length]. unfold enc_field_num, dec_field_num.
+    assert (Em : (match v with None => numeric_missing w | Some x => Ok x end) = Ok m).
+    { unfold m. destruct v; [reflexivity|]. apply numeric_missing_ok. lia. }
+    rewrite Em. cbn [bind]. rewrite write_uint_ok by lia. cbn [bind].
+    rewrite He, <- !app_assoc. split; [reflexivity|].
+    rewrite read_uon_to_bits by (rewrite <- ?Z2N_pow2; lia). cbn [bind].
+    rewrite Hd. cbn [bind raw_view map]. repeat f_equal.
+    destruct (Z.ltb_spec 1 w); [|lia]. cbn [andb].
+    unfold m. destruct v as [x|]; cbn [option_map].
+    + cbn in Hv. rewrite <- Z2N_pow2m1 by lia.
+      destruct (N.eqb_spec (Z.to_N x) (Z.to_N (2 ^ w - 1))); [lia|reflexivity].
+    + rewrite Z2N_pow2m1 by lia. rewrite N.eqb_refl. reflexivity.
+Qed.
+
+(* C05 at column level: the compressed and the uncompressed form of the same
+   column decode to the same values (namely the column) *)
+Theorem col_transparent_num w ae raws o t :
+  col_dom_num w ae raws = true ->
+  exists ec eu vs,
+    enc_col_num w ae raws o = Ok (o ++ ec) /\
+    enc_fields_num w raws o = Ok (o ++ eu) /\
+    dec_col_num w (length raws) (ec ++ t) = Ok (vs, t) /\
+    dec_fields_num w (length raws) (eu ++ t) = Ok (vs, t) /\
+    vs = raw_view raws.
+Proof.
+  intros Hdom. destruct (col_roundtrip_num w ae raws o t Hdom) as (ec & Hec & Hdc).
+  unfold col_dom_num in Hdom.
+  apply andb_true_iff in Hdom as [H _]. apply andb_true_iff in H as [H Hrange].
+  apply andb_true_iff in H as [H _]. apply andb_true_iff in H as [Hw2 Hw64].
+  destruct (fields_roundtrip_num w raws o t ltac:(lia) Hrange) as (eu & Heu & Hdu).
+  exists ec, eu, (raw_view raws). auto.
+Qed.
+
+(* D18: a one-bit element has no missing pattern.  (i) the all-missing one-bit
+   column does not survive compression: it reads back as the value 1;
+   (ii) a partly missing one-bit column survives compression but not the
+   uncompressed form: the two storage forms decode differently. *)
+Theorem onebit_missing_refuted :
+  (exists raws ae e vs,
+     flag_ok ae raws = true /\ forallb (in_range 1) raws = true /\
+     enc_col_num 1 ae raws [] = Ok e /\ dec_col_num 1 (length raws) e = Ok (vs, []) /\
+     vs <> raw_view raws) /\
+  (exists raws ae ec eu vc vu,
+     flag_ok ae raws = true /\ forallb (in_range 1) raws = true /\
+     enc_col_num 1 ae raws [] = Ok ec /\ enc_fields_num 1 raws [] = Ok eu /\
+     dec_col_num 1 (length raws) ec = Ok (vc, []) /\
+     dec_fields_num 1 (length raws) eu = Ok (vu, []) /\
+     vc = raw_view raws /\ vu <> vc).
+Proof.
+  split.
+  - exists [None; None], true. eexists. eexists.
+    split; [reflexivity|]. split; [reflexivity|].
+    split; [vm_compute; reflexivity|]. split; [vm_compute; reflexivity|].
+    vm_compute. discriminate.
+  - exists [None; Some 0%Z], false. eexists. eexists. eexists. eexists.
+    split; [reflexivity|]. split; [reflexivity|].
+    split; [vm_compute; reflexivity|]. split; [vm_compute; reflexivity|].
+    split; [vm_compute; reflexivity|]. split; [vm_compute; reflexivity|].
+    split; [vm_compute; reflexivity|]. vm_compute. discriminate.
+Qed.
+
+(* ========================================================================== *)
+(* 11. character columns                                                         *)
+(* ========================================================================== *)
+
+Lemma bytes_eqb_eq a : forall b, bytes_eqb a b = true -> a = b.
+Proof.
+  induction a as [|x a IH]; intros [|y b]; cbn; intros H; try discriminate; [reflexivity|].
+  apply andb_true_iff in H as [H1 H2]. f_equal; [lia|apply IH, H2].
+Qed.
+
+Lemma opt_bytes_eqb_eq a b : opt_bytes_eqb a b = true -> a = b.
+Proof.
+  destruct a, b; cbn; intros H; try discriminate; [f_equal; apply bytes_eqb_eq, H|reflexivity].
+Qed.
+
+Lemma forallb_bytes_eq_repeat (v0 : option (list byte)) l :
+  forallb (opt_bytes_eqb v0) l = true -> l = repeat v0 (length l).
+Proof.
+  induction l as [|v l IH]; [reflexivity|]. cbn [forallb length repeat].
+  intros H. apply andb_true_iff in H as [H1 H2]. apply opt_bytes_eqb_eq in H1. subst v.
+  f_equal. apply IH, H2.
+Qed.
+
+Lemma is_byte_rep b n : is_byte b = true -> forallb is_byte (bytes_rep b n) = true.
+Proof.
+  intros Hb. unfold bytes_rep. apply forallb_forall. intros x Hx.
+  apply repeat_spec in Hx. subst. exact Hb.
+Qed.
+
+Lemma str_or_missing_ok n v : opt_bytes_ok v = true -> forallb is_byte (str_or_missing n v) = true.
+Proof. destruct v; cbn; [auto|]. intros _. apply is_byte_rep. reflexivity. Qed.
+
+Lemma pad_bytes_rep b n : (0 <= n)%Z -> pad_bytes (bytes_rep b n) (Z.to_nat n) = bytes_rep b n.
+Proof.
+  intros Hn. unfold pad_bytes, bytes_rep. rewrite repeat_length, Nat.sub_diag. cbn [repeat].
+  rewrite app_nil_r. rewrite <- (repeat_length b (Z.to_nat n)) at 1. apply firstn_all.
+Qed.
+
+Lemma is_prefix_refl x : is_prefix x x = true.
+Proof. induction x as [|a x IH]; [reflexivity|]. cbn. rewrite N.eqb_refl. exact IH. Qed.
+
+Lemma is_infix_refl x : is_infix x x = true.
+Proof. destruct x; cbn [is_infix]; rewrite is_prefix_refl; reflexivity. Qed.
+
+Lemma write_bytes_ok v n o :
+  (0 <= n)%Z -> write_bytes v n o = Ok (o ++ bits_of_bytes (pad_bytes v (Z.to_nat n))).
+Proof. intros H. unfold write_bytes. destruct (Z.ltb_spec n 0); [lia|reflexivity]. Qed.
+
+Lemma read_bytes_pad v n t :
+  (0 <= n)%Z -> forallb is_byte v = true ->
+  read_bytes n (bits_of_bytes (pad_bytes v (Z.to_nat n)) ++ t) = Ok (pad_bytes v (Z.to_nat n), t).
+Proof.
+  intros Hn Hv.
+  destruct (read_write_bytes v n [] _ t Hv (write_bytes_ok v n [] Hn)) as (e & He & _ & Hr).
+  cbn [app] in He. subst e. exact Hr.
+Qed.
+
+(* the increments of a character column *)
+Lemma str_incs_roundtrip nb vals : forall o t,
+  (0 <= nb)%Z -> forallb opt_bytes_ok vals = true ->
+  exists e, write_bytes_list (map (str_or_missing nb) vals) nb o = Ok (o ++ e) /\
+            dec_incs_str nb [] (length vals) (e ++ t) = Ok (str_view nb vals, t).
+Proof.
+  induction vals as [|v vals IH]; intros o t Hnb Hok.
+  - exists []. cbn. rewrite app_nil_r. auto.
+  - cbn [forallb] in Hok. apply andb_true_iff in Hok as [Hv Hok].
+    set (b := bits_of_bytes (pad_bytes (str_or_missing nb v) (Z.to_nat nb))).
+    destruct (IH (o ++ b) t Hnb Hok) as (e & He & Hd).
+    exists (b ++ e). cbn [map write_bytes_list length dec_incs_str].
+    rewrite write_bytes_ok by lia. cbn [bind]. fold b. rewrite He, <- !app_assoc.
+    split; [reflexivity|]. unfold b.
+    rewrite read_bytes_pad by (try apply str_or_missing_ok; assumption). cbn [bind].
+    rewrite Hd. reflexivity.
+Qed.
+
+Lemma str_view_repeat nb v n :
+  str_view nb (repeat v n) = repeat (pad_bytes (str_or_missing nb v) (Z.to_nat nb)) n.
+Proof. unfold str_view. induction n as [|n IH]; [reflexivity|]. cbn [repeat map]. rewrite IH. reflexivity. Qed.
+
+Lemma str_view_width0 vals : str_view 0 vals = repeat [] (length vals).
+Proof.
+  unfold str_view. induction vals as [|v vals IH]; [reflexivity|].
+  cbn [map length repeat]. rewrite IH. f_equal.
+Qed.
+
+(* C05, character columns (after the D13 repair): missing, equal, different,
+   NUL, 0xFF, short (space padded) and long (truncated) entries, any number of
+   subsets, 0..63 octets. *)
+Theorem col_roundtrip_str nb ae vals o t :
+  col_dom_str nb ae vals = true ->
+  exists e, enc_col_str nb ae vals o = Ok (o ++ e) /\
+            dec_col_str nb (length vals) (e ++ t) = Ok (str_view nb vals, t).
+Proof.
+  unfold col_dom_str. intros H.
+  apply andb_true_iff in H as [H Hok]. apply andb_true_iff in H as [H Hflag].
+  apply andb_true_iff in H as [Hn0 Hn63].
+  destruct vals as [|v0 vals']; [discriminate|].
+  set (vals := v0 :: vals') in *.
+  destruct ae.
+  - (* all equal (or all missing): base = the string, width 0 *)
+    cbn [flag_ok_str vals] in Hflag. fold vals in Hflag.
+    apply forallb_bytes_eq_repeat in Hflag.
+    assert (Hv0 : opt_bytes_ok v0 = true).
+    { cbn [forallb vals] in Hok. apply andb_true_iff in Hok as [Hv _]. exact Hv. }
+    set (mv := str_or_missing nb v0).
+    assert (Emv : (if true && is_none v0 then bytes_rep 255%N nb
+                   else if true then str_or_missing nb v0 else bytes_rep 0%N nb) = mv).
+    { unfold mv. destruct v0; reflexivity. }
+    exists (bits_of_bytes (pad_bytes mv (Z.to_nat nb)) ++ zeros 6). split.
+    + unfold enc_col_str, vals. rewrite Emv.
+      rewrite write_bytes_ok by lia. cbn [bind].
+      unfold NBITS_FOR_NBITS_DIFF. rewrite write_uint_ok by (cbn; lia). cbn [bind].
+      rewrite <- app_assoc. reflexivity.
+    + unfold dec_col_str. rewrite <- app_assoc.
+      rewrite read_bytes_pad by (try apply str_or_missing_ok; try assumption; lia). cbn [bind].
+      change (zeros 6) with (to_bits 6 (Z.to_N 0)). rewrite to_bits6_width by lia. cbn [bind].
+      cbn [N.eqb Z.to_N negb andb].
+      rewrite Hflag at 2. rewrite str_view_repeat. reflexivity.
+  - (* different: zero base, full-width increments *)
+    destruct (Z.eq_dec nb 0) as [E0|E0].
+    + subst nb. exists (zeros 6). split.
+      * unfold enc_col_str, vals. cbn [andb].
+        rewrite write_bytes_ok by lia. cbn [bind].
+        unfold NBITS_FOR_NBITS_DIFF. rewrite write_uint_ok by (cbn; lia). cbn [bind].
+        cbn. rewrite app_nil_r. reflexivity.
+      * unfold dec_col_str.
+        change (zeros 6 ++ t) with (bits_of_bytes (pad_bytes [] (Z.to_nat 0)) ++ zeros 6 ++ t).
+        rewrite read_bytes_pad by (try reflexivity; lia). cbn [bind].
+        change (zeros 6) with (to_bits 6 (Z.to_N 0)). rewrite to_bits6_width by lia. cbn [bind].
+        cbn [N.eqb Z.to_N negb andb]. rewrite str_view_width0. reflexivity.
+    + destruct (str_incs_roundtrip nb vals
+                  (o ++ bits_of_bytes (bytes_rep 0%N nb) ++ to_bits 6 (Z.to_N nb)) t) as (e & He & Hd);
+        [lia|exact Hok|].
+      exists (bits_of_bytes (bytes_rep 0%N nb) ++ to_bits 6 (Z.to_N nb) ++ e). split.
+      * unfold enc_col_str, vals. cbn [andb].
+        rewrite write_bytes_ok by lia. cbn [bind]. rewrite pad_bytes_rep by lia.
+        unfold NBITS_FOR_NBITS_DIFF. rewrite write_uint_ok by (change (2 ^ 6)%Z with 64%Z; lia).
+        cbn [bind]. destruct (Z.eqb_spec nb 0); [lia|].
+        fold vals. rewrite <- !app_assoc in *. exact He.
+      * unfold dec_col_str. rewrite <- !app_assoc.
+        rewrite <- (pad_bytes_rep 0%N nb) at 1 by lia.
+        rewrite read_bytes_pad by (try (apply is_byte_rep; reflexivity); lia). cbn [bind].
+        rewrite to_bits6_width by lia. cbn [bind].
+        destruct (N.eqb_spec (Z.to_N nb) 0); [lia|]. cbn [negb andb].
+        assert (Hblank : str_min_is_blank nb (pad_bytes (bytes_rep 0%N nb) (Z.to_nat nb)) = true).
+        { unfold str_min_is_blank. rewrite pad_bytes_rep by lia.
+          assert (Eor : py_or_bytes (bytes_rep 0%N nb) (bytes_rep 255%N nb) = bytes_rep 0%N nb).
+          { unfold bytes_rep. destruct (Z.to_nat nb) eqn:En; [lia|]. reflexivity. }
+          rewrite Eor. apply is_infix_refl. }
+        rewrite Hblank. rewrite Z2N.id by lia. exact Hd.
+Qed.
+
+(* the uncompressed form of a character column *)
+Theorem fields_roundtrip_str nb vals : forall o t,
+  (0 <= nb)%Z -> forallb opt_bytes_ok vals = true ->
+  exists e, enc_fields_str nb vals o = Ok (o ++ e) /\
+            dec_fields_str nb (length vals) (e ++ t) = Ok (str_view nb vals, t).
+Proof.
+  induction vals as [|v vals IH]; intros o t Hnb Hok.
+  - exists []. cbn. rewrite app_nil_r. auto.
+  - cbn [forallb] in Hok. apply andb_true_iff in Hok as [Hv Hok].
+    set (b := bits_of_bytes (pad_bytes (str_or_missing nb v) (Z.to_nat nb))).
+    destruct (IH (o ++ b) t Hnb Hok) as (e & He & Hd).
+    exists (b ++ e). cbn [enc_fields_str length dec_fields_str]. unfold enc_field_str.
+    rewrite write_bytes_ok by lia. cbn [bind]. fold b. rewrite He, <- !app_assoc.
+    split; [reflexivity|]. unfold b.
+    rewrite read_bytes_pad by (try apply str_or_missing_ok; assumption). cbn [bind].
+    rewrite Hd. reflexivity.
+Qed.
+
+Theorem col_transparent_str nb ae vals o t :
+  col_dom_str nb ae vals = true ->
+  exists ec eu vs,
+    enc_col_str nb ae vals o = Ok (o ++ ec) /\
+    enc_fields_str nb vals o = Ok (o ++ eu) /\
+    dec_col_str nb (length vals) (ec ++ t) = Ok (vs, t) /\
+    dec_fields_str nb (length vals) (eu ++ t) = Ok (vs, t) /\
+    vs = str_view nb vals.
+Proof.
+  intros Hdom. destruct (col_roundtrip_str nb ae vals o t Hdom) as (ec & Hec & Hdc).
+  unfold col_dom_str in Hdom.
+  apply andb_true_iff in Hdom as [H Hok]. apply andb_true_iff in H as [H _].
+  apply andb_true_iff in H as [Hn0 _].
+  destruct (fields_roundtrip_str nb vals o t ltac:(lia) Hok) as (eu & Heu & Hdu).
+  exists ec, eu, (str_view nb vals). auto.
+Qed.
+
+(* D13, the code before the repair: an all-equal column of NUL strings came back
+   as empty strings, while the uncompressed form returns the NUL octets *)
+Theorem col_str_nul_refuted :
+  exists nb ae vals ec eu vc vu,
+    col_dom_str nb ae vals = true /\ is_equal_nul_col nb ae vals = true /\
+    enc_col_str nb ae vals [] = Ok ec /\ enc_fields_str nb vals [] = Ok eu /\
+    dec_col_str_orig nb (length vals) ec = Ok (vc, []) /\
+    dec_fields_str nb (length vals) eu = Ok (vu, []) /\
+    vu = str_view nb vals /\ vc <> vu.
+Proof.
+  exists 2%Z, true, [Some [0; 0]%N; Some [0; 0]%N].
+  eexists. eexists. eexists. eexists.
+  split; [reflexivity|]. split; [reflexivity|].
+  split; [vm_compute; reflexivity|]. split; [vm_compute; reflexivity|].
+  split; [vm_compute; reflexivity|]. split; [vm_compute; reflexivity|].
+  split; [vm_compute; reflexivity|]. vm_compute. discriminate.
+Qed.
+
+(* the repaired decoder on the same witness *)
+Example col_str_nul_repaired :
+  let vals := [Some [0; 0]%N; Some [0; 0]%N] in
+  (let* e := enc_col_str 2 true vals [] in dec_col_str 2 2 e) = Ok (str_view 2 vals, []).
+Proof. vm_compute. reflexivity. Qed.
+
+(* ========================================================================== *)
+(* 12. new reference values (203YYY) and constants                               *)
+(* ========================================================================== *)
+
+Theorem col_roundtrip_refval w v o o' n t :
+  enc_col_refval w true (Some v) o = Ok o' ->
+  exists e, o' = o ++ e /\ length e = (Z.to_nat w + 6)%nat /\
+            dec_col_refval w n (e ++ t) = Ok (v, t).
+Proof.
+  unfold enc_col_refval. cbn [negb].
+  destruct (write_int v w o) as [o1|er] eqn:E1; cbn [bind]; [|discriminate].
+  unfold NBITS_FOR_NBITS_DIFF. rewrite write_uint_ok by (cbn; lia).
+  intros E; injection E as <-.
+  destruct (read_write_int v w o o1 (zeros 6 ++ t) E1) as (e & -> & Hl & Hr).
+  exists (e ++ zeros 6). split; [rewrite <- app_assoc; reflexivity|].
+  split; [rewrite app_length, Hl; reflexivity|].
+  unfold dec_col_refval. rewrite <- app_assoc, Hr. cbn [bind].
+  change (zeros 6) with (to_bits 6 (Z.to_N 0)). rewrite to_bits6_width by lia. reflexivity.
+Qed.
+
+(* accepted exactly when all subsets agree, the value is present and fits *)
+Theorem enc_col_refval_refuses w ae v o :
+  (exists o', enc_col_refval w ae v o = Ok o') <->
+  ae = true /\ exists x, v = Some x /\ (1 < w)%Z /\ (Z.abs x < 2 ^ (w - 1))%Z.
+Proof.
+  unfold enc_col_refval. destruct ae; cbn [negb].
+  2:{ split; [intros [o' H]; discriminate|intros [H _]; discriminate]. }
+  destruct v as [x|].
+  2:{ split; [intros [o' H]; discriminate|intros (_ & x & H & _); discriminate]. }
+  unfold write_int, write_bool. cbn [bind].
+  split.
+  - intros [o' H].
+    destruct (write_uint (Z.abs x) (w - 1) (o ++ [(x <? 0)%Z])) as [o1|er] eqn:E1; cbn [bind] in H; [|discriminate].
+    apply write_uint_exact in E1 as (_ & Hr & Hw). split; [reflexivity|]. exists x. repeat split; lia.
+  - intros (_ & x' & Ex & Hw & Hx). injection Ex as <-.
+    rewrite write_uint_ok by lia. cbn [bind].
+    unfold NBITS_FOR_NBITS_DIFF. rewrite write_uint_ok by (cbn; lia). eauto.
+Qed.
+
+(* ========================================================================== *)
+(* 13. non-vacuity                                                               *)
+(* ========================================================================== *)
+
+(* a 3-subset numeric column with a missing entry, width 4: the encoder picks
+   a 3-bit increment (max - min + 1 = 3 is all ones) *)
+Example col_roundtrip_num_nonvacuous :
+  let raws := [Some 1; None; Some 3]%Z in
+  col_dom_num 4 false raws = true /\
+  enc_col_num 4 false raws [true] =
+    Ok ([true] ++ [false;false;false;true] ++ [false;false;false;false;true;true]
+               ++ [false;false;false] ++ [true;true;true] ++ [false;true;false]) /\
+  (let* o := enc_col_num 4 false raws [true] in dec_col_num 4 3 (tl o ++ [false])) =
+    Ok (raw_view raws, [false]).
+Proof. split; [reflexivity|]. split; vm_compute; reflexivity. Qed.
+
+(* the same column laid out with the (legal, smaller) 2-bit increments the
+   encoder would not choose *)
+Example dec_col_any_width_nonvacuous :
+  dec_col_num 4 3 (lay_col_num 4 2 1 [Some 1; None; Some 3]%N ++ [true]) =
+    Ok ([Some 1; None; Some 3]%N, [true]).
+Proof. vm_compute. reflexivity. Qed.
+
+(* the one-bit rule: base 5, width 1, increments 0 1 0 *)
+Example onebit_rule_nonvacuous :
+  dec_col_num 4 3 (lay_col_num 4 1 5 [Some 5; None; Some 5]%N) = Ok ([Some 5; None; Some 5]%N, []).
+Proof. vm_compute. reflexivity. Qed.
+
+Example col_roundtrip_codeflag_nonvacuous :
+  let raws := [Some 14; None; Some 0; Some 14]%Z in
+  col_dom_num 4 false raws = true /\
+  (let* o := enc_col_codeflag 4 false raws [] in dec_col_codeflag 4 4 4 o) = Ok (raw_view raws, []).
+Proof. split; vm_compute; reflexivity. Qed.
+
+(* a character column: missing, short (space padded), long (truncated) *)
+Example col_roundtrip_str_nonvacuous :
+  let vals := [Some [65; 66; 67]; None; Some [65]; Some [65; 66; 67; 68]]%N in
+  col_dom_str 3 false vals = true /\
+  (let* o := enc_col_str 3 false vals [] in dec_col_str 3 4 (o ++ [true])) =
+    Ok ([[65; 66; 67]; [255; 255; 255]; [65; 32; 32]; [65; 66; 67]]%N, [true]).
+Proof. split; vm_compute; reflexivity. Qed.
+
+Example col_roundtrip_onebit_nonvacuous :
+  col_dom_onebit false [Some 0; Some 1; Some 1]%Z = true /\
+  (let* o := enc_col_num 1 false [Some 0; Some 1; Some 1]%Z [] in dec_col_num 1 3 o) =
+    Ok ([Some 0; Some 1; Some 1]%N, []).
+Proof. split; vm_compute; reflexivity. Qed.
+
+Example col_roundtrip_refval_nonvacuous :
+  (let* o := enc_col_refval 12 true (Some (-1000)%Z) [] in dec_col_refval 12 3 o) = Ok ((-1000)%Z, []).
+Proof. vm_compute. reflexivity. Qed.
+
+(* a 64-bit column whose spread does not fit the 6-bit width field is refused *)
+Example spread_too_large_refused :
+  enc_col_num 64 false [Some 0; Some (2 ^ 64 - 2)]%Z [] = Err EValue /\
+  col_dom_num 64 false [Some 0; Some (2 ^ 64 - 2)]%Z = false /\
+  col_dom_num 64 false [Some 5; None; Some (2 ^ 63 + 2)]%Z = true.
+Proof. split; [|split]; vm_compute; reflexivity. Qed.
